@@ -166,8 +166,8 @@ class Polynomial(Vector):
         (a,b) = self.to_scalars(recursive=recursive)
 
         a_inv = 1./a
-        return Polynomial(Vector.from_scalars(a_inv, -b * a_inv),
-                          recursive=recursive)
+        return Polynomial(Vector.from_scalars(a_inv, -b * a_inv,
+                                              recursive=recursive))
 
     ############################################################################
     # Math operations
